@@ -22,7 +22,8 @@ CALLS = {1: ('user.get', [5]), 2: ('tag.get', ['abc']), 3: ('user.get', ['abc'])
          20: ('tmp', {'x': 1}), 21: ('tmp', {'y': 1}), 22: ('tmp', {'y': 1}),
          23: ('lax.conv', ['5']), 24: ('strict.conv', ['5']), 25: ('lax.conv', [5]), 26: ('strict.conv', [5]),
          27: ('drain', [[1, 2, 3]]), 28: ('pv0.whoami', []), 29: ('pv0.ping', []), 30: ('add', [1, 2]), 31: ('neg', [5]),
-         32: ('scratch.note', ['a']), 33: ('scratch.note', ['x'])}
+         32: ('scratch.note', ['a']), 33: ('scratch.note', ['x']),
+         34: ('dflt.one', []), 35: ('dflt.true', []), 36: ('dflt.float', [])}
 REGEN = {20: 'x', 21: 'yz', 22: 'x'}
 
 
@@ -40,6 +41,12 @@ def build(kind):
             return id
         get.__annotations__ = {'id': ann}
         return pv.validate(get)
+
+    def make_dflt(default):
+        # three functions that differ in the TYPE of a default only: 1 == True == 1.0 in Python, not in JSON
+        def dflt(a=default):
+            return '%s:%r' % (type(a).__name__, a)
+        return pv.validate(dflt)
 
     pv_strict = vpd.PydanticValidator(coerce=True, strict=True)     # a second validator object with another configuration
 
@@ -118,6 +125,9 @@ def build(kind):
     d.add(make_find('string'), 'tag.find')
     d.add(make_conv(pv), 'lax.conv')
     d.add(make_conv(pv_strict), 'strict.conv')
+    d.add(make_dflt(1), 'dflt.one')
+    d.add(make_dflt(True), 'dflt.true')
+    d.add(make_dflt(1.0), 'dflt.float')
     d.add(make_load('user'), 'user.load')
     d.add(make_load('post'), 'post.load')
     d.add(whoami, 'whoami', context='ctx')
